@@ -475,6 +475,16 @@ func (e *MetaCDC) Create(req *request.CreateRequest) (resp *request.CreateRespon
 	}()
 
 	ctx := context.Background()
+	positionStored, taskStored := false, false
+	defer func() {
+		if err != nil && positionStored && !taskStored {
+			// a create that is rejected after some of its start positions were stored leaves no checkpoint behind
+			deleteErr := e.metaStoreFactory.GetTaskCollectionPositionMetaStore(ctx).Delete(ctx, &meta.TaskCollectionPosition{TaskID: taskID}, nil)
+			if deleteErr != nil {
+				log.Warn("fail to clean the task positions", zap.String("task_id", taskID), zap.Error(deleteErr))
+			}
+		}
+	}()
 	getResp, err := e.metaStoreFactory.GetTaskInfoMetaStore(ctx).Get(ctx, &meta.TaskInfo{}, nil)
 	if err != nil {
 		return nil, servererror.NewServerError(errors.WithMessage(err, "fail to get task list to check num"))
@@ -539,6 +549,7 @@ func (e *MetaCDC) Create(req *request.CreateRequest) (resp *request.CreateRespon
 				CollectionName: collectionName,
 				Positions:      positions,
 			}
+			positionStored = true
 			err = e.metaStoreFactory.GetTaskCollectionPositionMetaStore(ctx).Put(ctx, metaPosition, nil)
 			if err != nil {
 				return servererror.NewServerError(errors.WithMessage(err, "fail to put the task collection position to etcd"))
@@ -581,6 +592,7 @@ func (e *MetaCDC) Create(req *request.CreateRequest) (resp *request.CreateRespon
 				},
 			},
 		}
+		positionStored = true
 		err = e.metaStoreFactory.GetTaskCollectionPositionMetaStore(ctx).Put(ctx, metaPosition, nil)
 		if err != nil {
 			return nil, servererror.NewServerError(errors.WithMessage(err, "fail to put the task rpc position to etcd"))
@@ -596,6 +608,7 @@ func (e *MetaCDC) Create(req *request.CreateRequest) (resp *request.CreateRespon
 		}
 		return nil, servererror.NewServerError(errors.WithMessage(err, "fail to put the task info to etcd"))
 	}
+	taskStored = true
 	metrics.TaskNumVec.Add(info.TaskID, info.State)
 	metrics.TaskStateVec.WithLabelValues(info.TaskID).Set(float64(info.State))
 	e.cdcTasks.Lock()
